@@ -6,9 +6,11 @@
     `List.mapM` (first failing step is the error), for ANY loop body meeting a one-line equational spec;
   * `range(n)` / `range(c, -1, -1)` as the index lists the model uses (`List.range`, reversed);
   * the writer (`Gen.Imp.FastaStream_write_scaffold`) with ARBITRARY chunk iterators is a fold of `ImpStream.rowStep`, and
-    that fold looks only at the `.data` of the chunks (`chunk.seek(0)` comes first), never at their cursor.
+    that fold looks only at the `.data` of the chunks (`chunk.seek(0)` comes first), never at their cursor;
+  * for rows that are `StreamProofs.RowOK` (fragment inside an indexed record) every chunk has at most `buffer_size` bytes.
 -/
 import AgpTpf.Proofs.ImpStream
+import AgpTpf.Proofs.C03Stream
 import AgpTpf.Gen.Imp
 namespace AgpTpf.ImpFasta
 open AgpTpf AgpTpf.PyRt
@@ -267,5 +269,72 @@ theorem write_scaffold_data_congr (gapIt gapIt' : Row → List Nat → List Byte
   rw [write_scaffold_rowStep gapIt seqIt w gc sc fuel hfuel', write_scaffold_rowStep gapIt' seqIt' w gc sc fuel hfuel]
   congr 1
   exact foldlM_congr_mem _ _ _ (fun row hrow s => rowStep_data w _ _ _ _ row (h row hrow) s) _
+
+/-! ### well-formed input: every chunk fits the buffer (so `buffer_size < fuel` is enough fuel for the writer) -/
+
+open AgpTpf.ChunkProofs AgpTpf.StreamProofs in
+theorem mapM_ok_mem {α β : Type} (g : α → R β) : ∀ (xs : List α) (ys : List β), xs.mapM g = .ok ys →
+    ∀ y ∈ ys, ∃ x ∈ xs, g x = .ok y := by
+  intro xs
+  induction xs with
+  | nil =>
+    intro ys h y hy
+    simp only [List.mapM_nil, pure, Except.pure, Except.ok.injEq] at h
+    subst h; cases hy
+  | cons x xs ih =>
+    intro ys h y hy
+    simp only [List.mapM_cons] at h
+    cases hg : g x with
+    | error e => rw [hg] at h; cases h
+    | ok b =>
+      rw [hg] at h
+      cases hm : List.mapM g xs with
+      | error e => rw [hm] at h; cases h
+      | ok bs =>
+        rw [hm] at h
+        simp only [bind, Except.bind, pure, Except.pure, Except.ok.injEq] at h
+        subst h
+        rcases List.mem_cons.mp hy with rfl | hy'
+        · exact ⟨x, List.mem_cons_self .., hg⟩
+        · obtain ⟨x', hx', hgx'⟩ := ih bs hm y hy'
+          exact ⟨x', List.mem_cons_of_mem _ hx', hgx'⟩
+
+open AgpTpf.ChunkProofs AgpTpf.StreamProofs in
+/-- for a fragment inside an indexed record and `buffer_size ≥ 1`, every chunk of the sequence iterator has at most
+    `buffer_size` bytes -/
+theorem seqIter_chunk_le {bs : Int} (hbs : 1 ≤ bs) (file : Bytes) (idx : List (Str × FastaInfo)) (resOf : Str → Bytes)
+    (f : Fragment) (hf : FragOK file idx resOf f) (cs : List BytesIO) (hcs : ImpStream.seqIter file idx bs (.frag f) = .ok cs) :
+    ∀ c ∈ cs, c.data.length ≤ bs.toNat := by
+  obtain ⟨info, hinfo, hrec, h0, h1, h2⟩ := hf
+  have ht := fwdChunkList_tiles f.start f.stop bs hbs h1
+  have hbnd : ∀ b ∈ (if f.strand = -1 then revChunkList f.start f.stop bs else fwdChunkList f.start f.stop bs),
+      1 ≤ b.1 ∧ b.1 ≤ b.2 ∧ b.2 ≤ ((resOf f.name).length : Int) ∧ b.2 - b.1 + 1 ≤ bs := by
+    intro b hb
+    have hb' : b ∈ fwdChunkList f.start f.stop bs := by
+      split at hb
+      · rw [revChunkList_eq_reverse f.start f.stop bs hbs h1] at hb
+        exact List.mem_reverse.mp hb
+      · exact hb
+    have := ht.within b hb'
+    have := ht.size_le b hb'
+    omega
+  simp only [ImpStream.seqIter, asFrag, hinfo, R_ok_bind] at hcs
+  intro c hc
+  obtain ⟨b, hb, hgb⟩ := mapM_ok_mem _ _ _ hcs c hc
+  obtain ⟨hb1, hb2, hb3, hb4⟩ := hbnd b hb
+  obtain ⟨rl, hrl, hdata, -⟩ := seq_chunk hrec b.1 b.2 hb1 hb2 hb3
+  rw [hrl] at hgb
+  simp only [R_ok_bind, pure, Except.pure, Except.ok.injEq] at hgb
+  subst hgb
+  have hlen := slice_length (resOf f.name) b.1 b.2 hb1 hb2 hb3
+  split
+  · simp only [reverseComplement, List.length_map, List.length_reverse, hdata]; omega
+  · simp only [hdata]; omega
+
+/-- one `yield BytesIO(gap_character * n)` for a one-byte gap character, the count given up to `Int.toNat` -/
+theorem yield_gap_congr {ρ : Type} (acc : List BytesIO) (c : Nat) {a b : Int} (h : a.toNat = b.toNat) :
+    (Except.ok (Ctl.next (acc ++ [({ data := bytesRepeat [c] a, pos := 0 } : BytesIO)])) : R (Ctl (List BytesIO) ρ))
+      = (Except.ok ({ data := List.replicate b.toNat c } : BytesIO) : R BytesIO).map (fun y => Ctl.next (acc ++ [y])) := by
+  rw [bytesRepeat_singleton, h]; rfl
 
 end AgpTpf.ImpFasta
